@@ -278,7 +278,8 @@ class Runner:
         self.results = []  # (session, result dict)
         self.group_time = {}  # (hosts, threads) -> [session seconds, cases]
         self.symcache = {}    # crash addresses -> (where, backtrace text)
-        self.start_s = 45     # no first begin marker after that: launch failed
+        self.start_s = 150    # no first begin marker after that: launch failed
+        self.max_starting = 3  # sessions inside MPI_Init at the same time
 
     def paths(self, s):
         b = os.path.join(self.workdir, "s%05d" % s.sid)
@@ -304,6 +305,9 @@ class Runner:
         os.makedirs(tmpd, exist_ok=True)
         env["OMPI_MCA_orte_tmpdir_base"] = tmpd
         env["TMPDIR"] = tmpd
+        # shared-memory segments live there too (not in /dev/shm), so a
+        # session that had to be SIGKILLed leaks nothing
+        env["OMPI_MCA_btl_vader_backing_directory"] = tmpd
         env["GALOIS_DO_NOT_BIND_THREADS"] = "1"
         cmd = ["mpirun", "--allow-run-as-root", "--oversubscribe", "-np",
                str(s.hosts), self.exe, fin, fout, str(s.threads)]
@@ -549,8 +553,11 @@ def run_sessions(runner, sessions, deadline_at, on_result, on_end,
                 (len(running), len(pending)))
             return False
         used = sum(s.hosts for s in running)
-        while pending and used + pending[0].hosts <= max(MAXRANKS,
-                                                         pending[0].hosts):
+        # mpirun/MPI_Init of many sessions at once stalls for minutes on a
+        # loaded machine: stagger the launches
+        while pending and used + pending[0].hosts <= max(
+                MAXRANKS, pending[0].hosts) and sum(
+                1 for x in running if not x.seen_bytes) < runner.max_starting:
             s = pending.pop(0)
             runner.start(s)
             running.append(s)
@@ -579,7 +586,8 @@ def run_sessions(runner, sessions, deadline_at, on_result, on_end,
                 stalled = time.time() - s.last_progress
                 diag = runner.diagnose(s)
                 diag["kind"] = "hang"
-                w, st = runner.stacks(s)
+                # (no gdb for a launch that never got going: nothing to see)
+                w, st = runner.stacks(s) if s.seen_bytes else ("", "")
                 diag["where"] = w
                 diag["text"] = "no progress for %.0fs (killed); stacks: %s" % (
                     stalled, st or diag["text"])
@@ -1101,7 +1109,7 @@ def run_check(a, prop, tier, exe, workdir, deadline_at):
                 (s.sid, diag["text"][-300:]))
             s.retries = getattr(s, "retries", 0) + 1
             launch_failures[0] += 1
-            if s.retries > 3:
+            if s.retries > 5:
                 log("# giving up: mpirun sessions do not start")
                 raise SystemExit(2)
         if rest:
